@@ -128,7 +128,10 @@ func runVortex(r *vlib.Run, g string) {
 		name := fmt.Sprintf("%dx%d,rate=%d,cols=%v", c.rows, c.cols, c.rate, c.sel)
 		var inst, donor *vortexInst
 		var e1, e2 error
-		if pn := vlib.Guard(func() { inst, e1 = mkVortex(c.cols, c.rows, c.rate, c.sel, uint64(3+ci)); donor, e2 = mkVortex(c.cols, c.rows, c.rate, c.sel, uint64(50+ci)) }); pn != "" || e1 != nil || e2 != nil {
+		if pn := vlib.Guard(func() {
+			inst, e1 = mkVortex(c.cols, c.rows, c.rate, c.sel, uint64(3+ci))
+			donor, e2 = mkVortex(c.cols, c.rows, c.rate, c.sel, uint64(50+ci))
+		}); pn != "" || e1 != nil || e2 != nil {
 			r.FailIn(g, key("prover-error"), name, fmt.Sprint(e1, e2, pn), nil)
 			continue
 		}
@@ -153,6 +156,22 @@ func runVortex(r *vlib.Run, g string) {
 			var err error
 			pn := vlib.Guard(func() { err = inst.params.Verify(inst.in) })
 			n++
+			// the same forgery with the lists of opened columns and of their Merkle proofs cut to the same shorter length
+			// (0 and 1): the verifier decides which columns it checks (its selected positions), not the prover
+			for _, keep := range []int{0, 1} {
+				oc, mp := inst.in.Proof.OpenedColumns, inst.in.Proof.MerkleProofOpenedColumns
+				if keep > len(oc) || keep > len(mp) {
+					continue
+				}
+				inst.in.Proof.OpenedColumns, inst.in.Proof.MerkleProofOpenedColumns = oc[:keep], mp[:keep]
+				var e2 error
+				pn2 := vlib.Guard(func() { e2 = inst.params.Verify(inst.in) })
+				n++
+				inst.in.Proof.OpenedColumns, inst.in.Proof.MerkleProofOpenedColumns = oc, mp
+				if pn2 == "" && e2 == nil {
+					r.FailIn(g, key("accepts-forged-proof/false-claim-with-fewer-opened-columns-than-selected"), fmt.Sprintf("%s: %d of %d columns opened", name, keep, len(oc)), fmt.Sprintf("vortex Verify accepts a false claimed value (UAlpha shifted by a codeword) when the proof opens only %d of the %d selected columns (%s)", keep, len(oc), name), nil)
+				}
+			}
 			copy(ua, saveU)
 			inst.in.ClaimedValues[0] = saveY
 			if pn != "" {
